@@ -26,6 +26,9 @@ CLAIMED = {
     "C02": ("CrossHair/z3 symbolic execution of every registered rule wrapper on every admissible argument-shape tuple: inductive invariant WF (one step from an arbitrary well-formed state); shape closure as solver-checked fixpoint",
             "Trusted: regex engine contract (group texts lie in their group's language; ranges derived from the live pattern AST), CrossHair's datetime model. Not covered: ruleDOWDOM (rrule). Bounds: top-level years 1880..2109; quick: <= 4 shape tuples per rule, 6 parts of day, date-arithmetic rules on the cell 2024-02 with amounts <= 40; thorough: all tuples, all parts of day for single-POD obligations, 4 cells, amounts <= 120.",
             "§4 WF, §5 C02"),
+    "C01": ("CrossHair/z3: 'raises nothing' clause of the WF family over every rule wrapper, accessors, latent post-processing; result construction/rendering on a scripted stream; scorer fallback; duration overflow",
+            "Trusted: regex engine contract; WF as precondition (inductive by C02). Not covered: free Unicode text as a solver variable, rrule rule, debug=True generator return. Search-layer totality is decided by the C13-C15 obligations.",
+            "§5 C01"),
 }
 
 NOT_YET = {}
